@@ -306,8 +306,8 @@ def conformance(ctx, cases, label, chunk, timeout=3000):
         res = vlib.tlc(ctx, module, cfg, workers=nw, env={'TRACE': path}, timeout=timeout, args=['-continue'],
                        label='%s-%d' % (label, ci), kind='conf')
         fails = {'PFAIL': {}, 'IFAIL': {}}
-        for m in re.finditer(r'<<\s*"(PFAIL|IFAIL)",\s*(\d+),\s*(\d+),\s*(\d+)\s*>>', res.out):
-            fails[m.group(1)].setdefault(ci * chunk + int(m.group(2)) - 1, []).append((int(m.group(3)) - 1, int(m.group(4)) - 1))
+        for m in re.finditer(r'<<\s*"(PFAIL|IFAIL)",\s*(\d+),\s*(\d+),\s*(\d+),\s*"(\w+)",\s*"(\w+)"\s*>>', res.out):
+            fails[m.group(1)].setdefault(ci * chunk + int(m.group(2)) - 1, []).append((int(m.group(3)) - 1, int(m.group(4)) - 1, m.group(5), m.group(6)))
         viol = {'CaseOk': set(), 'ImplOk': set()}
         for m in re.finditer(r'Invariant (\w+) is violated\.(.*?)(?=Error: Invariant|\Z)', res.out, re.S):
             nums = re.findall(r'\bi = (\d+)', m.group(2))
@@ -334,7 +334,19 @@ def conformance(ctx, cases, label, chunk, timeout=3000):
 # witness classification (for known-finding matching): a deliberately narrow syntactic description of the refused rounds
 # ---------------------------------------------------------------------------------------------------------------
 # the bytes delivered before some earlier round end with: chunk-ext value (token or quoted-string), then possibly blanks
-AFTER_EXT_VALUE_BLANKS = re.compile(rb'=[ \t\x0b\x0c\r]*(?:"(?:[^"\\]|\\.)*"|[!#$%&\'*+\-.^_`|~0-9A-Za-z]+)[ \t]*$', re.S)
+AFTER_EXT_VALUE_BLANKS = re.compile(rb'=[ \t\x0b\x0c\r]*(?:"(?:[^"\\]|\\.)*"|[!#$%&\'*+\-.^_`|~0-9A-Za-z]+)([ \t]*)$', re.S)
+
+
+def resumed_in_blanks(inb, nb):
+    """a parse round ended after nb bytes: right after a chunk-ext value or inside the blanks that follow it, and these blanks
+    (at least one) are not followed by another extension - the input is malformed there"""
+    m = AFTER_EXT_VALUE_BLANKS.search(inb[:nb])
+    if not m:
+        return False
+    rest = inb[nb:]
+    after = len(rest) - len(rest.lstrip(b' \t'))
+    nxt = rest[after:after + 1]
+    return len(m.group(1)) + after >= 1 and nxt not in (b';', b'=')
 
 
 def classify(o, fails):
@@ -343,10 +355,11 @@ def classify(o, fails):
     if not fails:
         return cls
     hit = 0
-    for r, s in fails:
+    for r, s, strict_oc, tolerant_oc in fails:
         steps = o['runs'][r]['steps']
-        # the refused round, or an earlier round of this schedule, began right after blanks that follow a chunk-ext value
-        if any(AFTER_EXT_VALUE_BLANKS.search(inb[:steps[j][0]]) for j in range(0, s)):
+        # the reference refuses, the decoder goes on (asks for more or completes), and the refused round or an earlier round of
+        # this schedule began right after / inside blanks that follow a chunk-ext value
+        if tolerant_oc == 'Reject' and steps[s][1] in ('NeedMore', 'Done') and any(resumed_in_blanks(inb, steps[j][0]) for j in range(0, s)):
             hit += 1
     if hit == len(fails):
         cls['shape'] = 'parse round resumed after blanks that follow a chunk-ext value'
@@ -355,9 +368,10 @@ def classify(o, fails):
 
 def describe(o, fails):
     out = []
-    for r, s in fails[:3]:
+    for r, s, strict_oc, tolerant_oc in fails[:3]:
         run = o['runs'][r]
-        out.append('caps=%s rounds=%s refused round #%d' % (run['caps'], [(st[0], st[1], st[2], st[3]) for st in run['steps']][:s + 2][-4:], s + 1))
+        out.append('caps=%s rounds=%s refused round #%d (reference: strict %s, tolerant %s)' % (
+            run['caps'], [(st[0], st[1], st[2], st[3]) for st in run['steps']][:s + 2][-4:], s + 1, strict_oc, tolerant_oc))
     return '; '.join(out)
 
 
@@ -400,8 +414,9 @@ def run(ctx):
         ctx.violation('TeChunkedParser does not do what Chunked.tla allows: input %r relaxed=%d: %s' % (
             bytes(o['in'])[:120], o['relaxed'], describe(o, prej[j])),
             {'class': cls, 'input_hex': hx(bytes(o['in'])), 'relaxed': o['relaxed'], 'family': cases[live[j]][3],
-             'refused': [{'caps': o['runs'][r]['caps'], 'round': s + 1, 'rounds [delivered, outcome, consumed, decoded]': [st[:4] for st in o['runs'][r]['steps']][:s + 2][-6:]}
-                         for r, s in prej[j][:6]]})
+             'refused': [{'caps': o['runs'][r]['caps'], 'round': s + 1, 'reference': {'strict': so, 'tolerant': to},
+                          'rounds [delivered, outcome, consumed, decoded]': [st[:4] for st in o['runs'][r]['steps']][:s + 2][-6:]}
+                         for r, s, so, to in prej[j][:6]]})
         if len(ctx.violations) >= 5:
             break
     for j in irej:
